@@ -85,7 +85,7 @@ func newReplicaSelector(
 			busyThreshold: time.Duration(req.BusyThresholdMs) * time.Millisecond,
 		},
 		replicaReadType: req.ReplicaReadType,
-		isStaleRead:     req.StaleRead,
+		isStaleRead:     req.StaleRead && isReadReq(req.Type),
 		isReadOnlyReq:   isReadReq(req.Type),
 		option:          option,
 		target:          nil,
